@@ -153,6 +153,8 @@ def judge(site, opts, res, rows, log, part, replay):
     #     serves a link to this URL, level = parent's level + 1, inline level = what the kind of that link implies
     for url, row in rowmap.items():
         if url == site.start:
+            if row['root'] != url or row['level'] != 0 or row['inline_level']:
+                part.violation('row-metadata-wrong/start-url', {'row': row}, replay)
             continue
         problems = sitegen.row_metadata_problems(url, row, rowmap, site.pages, site.start)
         if problems:
